@@ -381,7 +381,7 @@ def run(tier, seed, replay=None):
                 rejected_and_oracle_rejects=0)
     try:
         outs = sc.coq_eval_blocks(PID, sc.CERT_HEADER, [e for _, _, e in jobs], tag="cert",
-                                  per_file=max(2, len(jobs) // (cm.NCPU * 3) + 1), timeout=1500)
+                                  per_file=max(2, len(jobs) // cm.NCPU + 1), timeout=1500)
         rej = {}
         for (ci, labels, _), o in zip(jobs, outs):
             verdicts = [x.strip() == "true" for x in o.strip().strip("[]").split(";")]
